@@ -3,7 +3,7 @@ import re
 
 import anchors
 from core import (BA, call_matches, callee_paths, op_local, op_place, op_const, const_int, const_str, place_fields, taint, str_consts,
-                  decode_bytestr, decode_fmt_template, upvar_index)
+                  decode_bytestr, decode_fmt_template, upvar_index, closure_sites, rvalue_places)
 from rules import common
 from rules.C06 import backward_direct
 
@@ -91,23 +91,45 @@ def run(ctx):
         ctx.ob("R18.1", "Display|argument-order", names == ["PREFIX", "kind", "pid", "timestamp", "SEP", "text"], where=D.span, detail="arguments: %s" % names)
     P = prog.one(r"logs::Meta::parse")
     pba = BA.of(P)
-    named = [(bb, nm) for (bb, _, s, nm) in str_consts(P) if nm and nm.startswith("logs::Meta")]
-    uses_prefix = any(nm.endswith("PREFIX") for _, nm in named)
-    uses_sep = any(nm.endswith("SEP") for _, nm in named)
-    sw = pba.calls(r"core::str::<impl str>::starts_with")
-    fd = pba.calls(r"core::str::<impl str>::find")
+    # the record prefix is consumed through the PREFIX constant (starts_with + split_at, or strip_prefix), the text is
+    # cut at the SEP constant, the metadata is split on ':' - in this order
+    sw = [i for i in pba.calls(r"core::str::<impl str>::(starts_with|strip_prefix)") if (_named_arg(P, i, 1) or "").endswith("::PREFIX")]
+    fd = [i for i in pba.calls(r"core::str::<impl str>::find") if (_named_arg(P, i, 1) or "").endswith("::SEP")]
     sp = pba.calls(r"core::str::<impl str>::split")
-    parses = [(i, [g["ty"] for g in P.blocks[i]["term"].get("gargs", [])]) for i in pba.calls(r"core::str::<impl str>::parse")]
-    tys = [t[0] if t else "?" for _, t in sorted(parses)]
-    ok = uses_prefix and uses_sep and bool(sw) and bool(fd) and bool(sp)
-    ctx.ob("R18.1", "parse|uses-PREFIX-and-SEP-constants", ok, where=P.span, detail="parse: starts_with(PREFIX), find(SEP), split(':')")
+    perr = common.error_blocks(P)
+    ok = (bool(sw) and bool(fd) and bool(sp) and all(any(common.dominates_nonerror(P, a, f, perr) for a in sw) for f in fd)
+          and all(any(common.dominates_nonerror(P, f, x, perr) for f in fd) for x in sp))
+    ctx.ob("R18.1", "parse|uses-PREFIX-and-SEP-constants", ok, where=P.span, detail="parse: starts_with/strip_prefix(PREFIX), then find(SEP), then split(':')")
     splitc = [(op_const(P.blocks[i]["term"]["args"][1]) or {}).get("int") for i in sp]
     ctx.ob("R18.1", "parse|field-separator-colon", splitc == [ord(":")], where=P.span, detail="split on %s" % [chr(c) if c else c for c in splitc])
-    ctx.ob("R18.1", "parse|pid-then-timestamp-types", tys == ["i32", "f64"] and (not parses or all(pba.dominates(parses[0][0], parses[1][0]) for _ in [0])), where=P.span, detail="parse::<%s> in order" % tys)
-    # kind is the first word: words.next() order: kind, pid, timestamp
-    nx = pba.calls(r".*::iterator::Iterator>?::next")
-    ctx.ob("R18.1", "parse|three-fields-in-order", len(nx) == 3 and len(parses) == 2 and all(pba.dominates(nx[1], parses[0][0]) and pba.dominates(nx[2], parses[1][0]) for _ in [0]) and pba.dominates(nx[0], nx[1]),
-           where=P.span, detail="words.next() x3: kind, then pid parsed, then timestamp parsed")
+    # the three words, in iterator order, become kind / pid / timestamp of the returned record; the 2nd is converted
+    # with parse::<pid_t>, the 3rd with parse::<f64> (conversion located by value flow: in parse itself or in a closure
+    # handed to a combinator that is fed by that word)
+    nx = [i for i in pba.calls(r".*::iterator::Iterator>?::next") if sp and any(pba.base_local_of_ref(op_local(P.blocks[i]["term"]["args"][0])) == P.blocks[x]["term"]["dest"]["l"] for x in sp)]
+    chain = len(nx) == 3 and pba.dominates(nx[0], nx[1]) and pba.dominates(nx[1], nx[2])
+    T = [taint(P, seeds={P.blocks[i]["term"]["dest"]["l"]}, mode="derived") for i in nx] if chain else []
+    metas = [st for (bb, j, st) in anchors.agg_sites(P, r"logs::Meta")]
+    convs = _conv_sites(prog, P)
+
+    def field_from(st, field, k):
+        o = st["rv"]["ops"][st["rv"]["fields"].index(field)] if field in st["rv"].get("fields", []) else None
+        l = op_local(o) if o is not None else None
+        return l is not None and l in T[k] and not any(l in T[j] for j in range(3) if j != k)
+
+    def converted(st, field, k, ty):
+        o = st["rv"]["ops"][st["rv"]["fields"].index(field)] if field in st["rv"].get("fields", []) else None
+        l = op_local(o) if o is not None else None
+        for (pos, cty) in convs:
+            t = P.blocks[pos]["term"]
+            fed = any(op_local(a) in T[k] or any(x in T[k] for x in pba.ref_chain(op_local(a))) for a in t["args"] if op_local(a) is not None)
+            if cty == ty and fed and t["dest"]["l"] in T[k] and l in T[k]:
+                return True
+        return False
+    tys = sorted(ty for _, ty in convs)
+    ok = chain and bool(metas) and len(convs) == 2 and all(converted(st, "pid", 1, "i32") and converted(st, "timestamp", 2, "f64") for st in metas)
+    ctx.ob("R18.1", "parse|pid-then-timestamp-types", ok, where=P.span, detail="word#1 -> parse::<i32> -> Meta.pid, word#2 -> parse::<f64> -> Meta.timestamp (conversions found: %s)" % tys)
+    ok = chain and bool(metas) and all(field_from(st, "kind", 0) and field_from(st, "pid", 1) and field_from(st, "timestamp", 2) for st in metas)
+    ctx.ob("R18.1", "parse|three-fields-in-order", ok, where=P.span, detail="words.next() x3 in order: kind, then pid, then timestamp of the returned Meta")
     lits = []
     for b in prog.bodies.values():
         for (bb, _, s, nm) in str_consts(b):
@@ -167,8 +189,9 @@ def run(ctx):
             from_ln = any(o[0] == "call" and call_matches(o[2], r"state::logname") for o in org)
             fd = op_local(cl.blocks[d2[0]]["term"]["args"][0])
             ft = taint(cl, seeds={cl.blocks[cr[0]]["term"]["dest"]["l"]}, mode="derived")
-            idsl, idorg, _ = backward_direct(cl, op_local(cl.blocks[ln[0]]["term"]["args"][1]))
-            id_ok = any(o[0] == "call" and call_matches(o[2], r"state::File::id") and _recv_upvar(cl, o[2]) == "sf" for o in idorg)
+            # FLOW(File::id(the job's own record) => logname's id), wherever the id is computed: in the child on the
+            # captured record, or in the parent with the number captured (no variable name is consulted)
+            id_ok = _id_of_job_record(SS, cl, op_local(cl.blocks[ln[0]]["term"]["args"][1]))
             ok = from_ln and fd in ft and id_ok and cba.dominates(cr[0], d2[0]) and all(cba.path([d2[0]], [e]) for e in ex)
         ctx.ob("R18.3", "%s|stderr->logname(env,sf.id())" % cl.key, ok, where=ctx.where(cl, cr[0]) if cr else cl.span,
                detail="File::create(logname(env, sf.id())) is dup2'ed onto fd 2 before execvp" if ok else "the child's stderr is not redirected to the log of the job's own record")
@@ -201,8 +224,13 @@ def run(ctx):
     do_meta = [i for i in sba.calls(r"logs::meta") if _kind_literal(SS, SS.blocks[i]["term"]["args"][0]) == "do"]
     forks = sba.calls(anchors.FORK_START)
     if ctx.ob("R18.4", "%s|do-record" % SS.key, len(do_meta) == 1, where=SS.span, detail="%d 'do' records" % len(do_meta)):
+        # MPT(entry -> 'do' record, persist | logging-disabled edge) over the non-error paths: a path that goes through
+        # the residual arm of a `?` is on its way to return Err (directly, or - when the pre-creation is a helper that
+        # was inlined - through the helper's own Result and the caller's `?`), it never writes the record
+        # (common.error_blocks)
         lgsw = [(sw, t_t, f_t) for (sw, t_t, f_t, c) in sba.switches_on_call(r"env::OptionalBool::unwrap_or") if per and sba.edge_dominates((sw, t_t), per[0])]
-        ok = bool(lgsw) and sba.path([lgsw[0][1]], do_meta, avoid=frozenset(per), incl=True) is None
+        residuals = common.error_blocks(SS)
+        ok = bool(lgsw) and sba.path([0], do_meta, avoid=frozenset(per) | residuals, cut_edges=frozenset((sw, f_t) for (sw, t_t, f_t) in lgsw), incl=True) is None
         ctx.ob("R18.4", "%s|log-replaced-before-do-record" % SS.key, ok, where=ctx.where(SS, do_meta[0]), detail="on the logging side persist() precedes the 'do' record")
         ctx.ob("R18.4", "%s|do-record-before-fork" % SS.key, all(sba.dominates(do_meta[0], f) for f in forks), where=ctx.where(SS, do_meta[0]), detail="the 'do' record precedes the fork")
     R = anchors.record_new_state(prog)
@@ -212,8 +240,10 @@ def run(ctx):
     if ctx.ob("R18.4", "%s|done-record" % R.key, len(done) == 1, where=R.span, detail="%d 'done' records" % len(done)):
         common.mpt(ctx, "R18.4", "%s|done-on-every-path" % R.key, R, [0], rba.returns(), done, "the 'done' record is written on every path", "a path returns without the 'done' record")
         ctx.ob("R18.4", "%s|done-after-save" % R.key, all(rba.dominates(s, done[0]) for s in saves) and bool(saves), where=ctx.where(R, done[0]), detail="'done' follows save")
-        tl = taint(R, seeds={8}, mode="derived")
-        # rv local: the i32 parameter is reassigned; use all i32 locals derived from constants 206/207/209 or param
+        # rv = the value the function returns (the locals `_0` is copied from), whatever its parameter position
+        rvs = {op_local(d[3]["op"]) for d in rba.defs.get(0, []) if d[0] == "stmt" and d[3]["k"] == "use" and op_local(d[3]["op"]) is not None and not op_place(d[3]["op"])["p"]}
+        rvs = {l for l in rvs if R.locals[l] == "i32"}
+        tl = taint(R, seeds=rvs, mode="derived") if rvs else set()
         a = op_local(R.blocks[done[0]]["term"]["args"][1])
         tmpl = [s for (_, _, s, nm) in str_consts(R) if nm == "format_args" and s.strip() == "{} {}"]
         ctx.ob("R18.4", "%s|done-text=rv+target" % R.key, a in tl and bool(tmpl), where=ctx.where(R, done[0]), detail="the text is format!(\"{} {}\", rv, target)")
@@ -221,6 +251,10 @@ def run(ctx):
     # ---- R18.6
     ew = [(sw, t_t, f_t, c) for (sw, t_t, f_t, c) in lba.switches_on_call(r"core::str::<impl str>::ends_with") if (op_const(CL.blocks[c]["term"]["args"][1]) or {}).get("int") == 10]
     reads = lba.calls(r".*BufRead>?::read_line|std::io::BufRead::read_line")
+    # the *decision* on the trailing newline: an ends_with test one side of which cannot continue (neither returns nor
+    # reads on: the panic side of an assert!/debug_assert! restating the invariant) decides nothing
+    cont = set(lba.returns()) | set(reads)
+    ew = [(sw, t_t, f_t, c) for (sw, t_t, f_t, c) in ew if all(lba.path([x], cont, incl=True) is not None for x in (t_t, f_t))]
     ps_ = lba.calls(r"alloc::string::String::push_str")
     if ctx.ob("R18.6", "%s|newline-test" % CL.key, len(ew) == 1 and bool(reads) and bool(ps_), where=CL.span, detail="ends_with('\\n') test, read_line and push_str located"):
         sw, t_t, f_t, c = ew[0]
@@ -271,6 +305,56 @@ def run(ctx):
         ctx.ob("R18.5", "%s|%s|released-around-recursion" % (CL.key, k), bool(before and after), where=ctx.where(CL, r), detail="unlock before and wait_lock after the recursive call (typestate checked under C09 R9.1)")
 
 
+def _named_arg(b, bb, idx):
+    """Name of the named constant passed as argument idx of the call in bb (directly or through a copy/ref chain)."""
+    t = b.blocks[bb]["term"]
+    if idx >= len(t["args"]):
+        return None
+    a = t["args"][idx]
+    c = op_const(a)
+    if c is not None:
+        return c.get("named")
+    ba = BA.of(b)
+    for x in ba.ref_chain(op_local(a)):
+        d = ba.single_def(x)
+        if d and d[0] == "stmt":
+            for c in __import__("core").rvalue_consts(d[3]):
+                if "named" in c:
+                    return c["named"]
+    return None
+
+
+_STR_PARSE = r"core::str::<impl str>::parse"
+
+
+def _conv_sites(prog, P):
+    """[(pos_bb, type)] `str::parse::<type>` conversions performed on behalf of P: a call in P itself (pos = its
+    block), or a call inside a closure built in P that converts the closure's own parameter, located at the call of P
+    that receives the closure value (`opt.and_then(|w| w.parse::<T>())`)."""
+    pba = BA.of(P)
+    out = []
+    for i in pba.calls(_STR_PARSE):
+        g = [x["ty"] for x in P.blocks[i]["term"].get("gargs", []) if "ty" in x]
+        out.append((i, g[0] if g else "?"))
+    for (bb, j, dest, k, ops) in closure_sites(P):
+        cb = prog.bodies.get(k)
+        if cb is None or bb not in pba.live or P.is_cleanup(bb):
+            continue
+        cba = BA.of(cb)
+        params = set(range(2, cb.arg_count + 1))
+        tl = taint(cb, seeds=params, mode="direct") if params else set()
+        for ci in cba.calls(_STR_PARSE):
+            a = op_local(cb.blocks[ci]["term"]["args"][0])
+            if a is None or not (a in tl or any(x in tl for x in cba.ref_chain(a))):
+                out.append((bb, "?"))       # converts something else than what it is handed: not attributable
+                continue
+            g = [x["ty"] for x in cb.blocks[ci]["term"].get("gargs", []) if "ty" in x]
+            users = [u for u in pba.all_calls() if any(op_local(x) is not None and dest in pba.ref_chain(op_local(x)) for x in P.blocks[u]["term"]["args"])]
+            for u in users:
+                out.append((u, g[0] if g else "?"))
+    return out
+
+
 def _kind_literal(b, a):
     s = const_str(a)
     if s is not None:
@@ -286,6 +370,70 @@ def _kind_literal(b, a):
                 if "str" in c:
                     return c["str"]
     return None
+
+
+def _is_job_record(SS, l):
+    """Parent local `l` is (a reference to / a move of) the record moved out of `BuildJob.sf`."""
+    if l is None:
+        return False
+    sl, org, ar = backward_direct(SS, l)
+    ba = BA.of(SS)
+    for x in sl:
+        for d in ba.defs.get(x, []):
+            if d[0] == "stmt" and any("builder::BuildJob.sf" in place_fields(p) for p in rvalue_places(d[3])):
+                return True
+    return False
+
+
+def _upvars_read(cl, locals_):
+    """Upvar indices read by the definitions of `locals_` in closure body cl."""
+    ba = BA.of(cl)
+    out = set()
+    for x in locals_:
+        for d in ba.defs.get(x, []):
+            if d[0] == "stmt":
+                for p in rvalue_places(d[3]):
+                    u = upvar_index(p)
+                    if u:
+                        out.add(u[0])
+    return out
+
+
+def _id_of_job_record(SS, cl, id_local):
+    """FLOW(File::id(job record) => id_local in the child closure), direct strength and no arithmetic, across the
+    capture: either the closure calls File::id on a captured record that is the job's own, or it captured the
+    number and the parent computed it as File::id of the job's own record."""
+    if id_local is None:
+        return False
+    caps = closure_sites(SS, cl.key)
+    if len(caps) != 1:
+        return False
+    ops = caps[0][4]
+
+    def parent_local(u):
+        return op_local(ops[u]) if 0 <= u < len(ops) else None
+    sl, org, ar = backward_direct(cl, id_local)
+    if ar or any(o[0] != "call" or not call_matches(o[2], r"state::File::id") for o in org):
+        return False
+    if org:
+        # computed in the child: every File::id receiver is a captured job record
+        for o in org:
+            us = _upvars_read(cl, BA.of(cl).ref_chain(op_local(o[2]["args"][0])))
+            if not us or not all(_is_job_record(SS, parent_local(u)) for u in us):
+                return False
+        return True
+    # computed in the parent: the captured number is File::id(job record)
+    us = _upvars_read(cl, sl)
+    if not us:
+        return False
+    for u in us:
+        psl, porg, par = backward_direct(SS, parent_local(u))
+        if par or not porg:
+            return False
+        for o in porg:
+            if not (o[0] == "call" and call_matches(o[2], r"state::File::id") and _is_job_record(SS, op_local(o[2]["args"][0]))):
+                return False
+    return True
 
 
 def _recv_upvar(cl, t):
